@@ -220,6 +220,45 @@ theorem applySteps_preserves (T : List (String × Pos)) (rest : Bundle) (hops : 
         (fun s2 hs2 => hgood s2 (List.mem_cons_of_mem _ hs2)) hgall
       exact (hmean n p (hgood s List.mem_cons_self)).trans hrest
 
+/-- what one valid step gives for the next one: meaning preserved, the frame, canonical keys, adequacy -/
+theorem step_invariants (T : List (String × Pos)) (rest : Bundle) (hops : Nat) (hpos : 0 < hops)
+    (d d1 : J) (s : Step) (h1 : updR s.v' .swagger d s.toks = some d1)
+    (a : J) (q0 q' : Pos) (hget : Spec.Pointer.get d s.toks = some a) (hv1 : Doc.refStr a ≠ "") (hv2 : s.v' ≠ "")
+    (ht1 : T.lookup (Doc.refStr a) = some q0) (ht2 : T.lookup s.v' = some q')
+    (hreach : Reaches (bundleWith d T rest) q0 q') (hcanon : AllCanon s.toks)
+    (hT : ∀ doc s' q, (bundleWith d T rest).target doc s' = some q → GoodAll q ∧ "$ref" ∉ q.2)
+    (hk : keysCanon d = true) (had : RSetting.AdequateOn GoodAll (bundleWith d T rest) hops) :
+    (∀ n p, Good s.toks p → unfold (bundleWith d T rest) hops n p = unfold (bundleWith d1 T rest) hops n p) ∧
+    keysCanon d1 = true ∧ RSetting.AdequateOn GoodAll (bundleWith d1 T rest) hops ∧
+    (∀ p, Good s.toks p → p ≠ ("", s.toks) →
+      ((bundleWith d T rest).node p = none ∧ (bundleWith d1 T rest).node p = none) ∨
+      (∃ a' c', (bundleWith d T rest).node p = some a' ∧ (bundleWith d1 T rest).node p = some c' ∧
+        Doc.refStr c' = Doc.refStr a' ∧ ShapeEq a' c')) := by
+  have hgoodT : ∀ doc s' q'', (bundleWith d T rest).target doc s' = some q'' → Good s.toks q'' := by
+    intro doc s' q'' ht
+    obtain ⟨hg, hnr⟩ := hT doc s' q'' ht
+    refine (good_iff _ _).2 ⟨hg, ?_⟩
+    rintro ⟨_, hpre⟩
+    exact hnr (hpre.subset (by simp))
+  have hadS : RSetting.AdequateOn (Good s.toks) (bundleWith d T rest) hops :=
+    fun h' p' e' hg' hc' => had h' p' e' ((good_iff _ _).1 hg').1 hc'
+  obtain ⟨hmean, had1, hframe⟩ := updR_retarget_step d d1 s.toks s.v' h1 T rest a hget hv1 hv2 q0 q' ht1 ht2
+    hreach hcanon hk hgoodT hops hadS
+  have hobj := refStr_obj hv1
+  have hget1 : Spec.Pointer.get d1 s.toks = some (a.set "$ref" (.str s.v')) :=
+    get_setAt_self _ _ _ _ (updR_setAt d d1 s.toks s.v' a h1 hget)
+  refine ⟨hmean, keysCanon_updR d d1 s.toks s.v' a h1 hget hk, ?_, hframe⟩
+  intro h' p' e' hg' hc'
+  by_cases hin : p'.1 = "" ∧ (s.toks ++ ["$ref"]) <+: p'.2
+  · obtain ⟨pd, pp⟩ := p'
+    obtain ⟨hp1, r, hr⟩ := hin
+    simp only at hp1; subst hp1
+    simp only at hr
+    have hpp : pp = s.toks ++ "$ref" :: r := by rw [← hr]; simp
+    subst hpp
+    exact chase_in_ref d1 T rest s.toks a s.v' hobj hget1 r h' hops hpos e' hc'
+  · exact had1 h' p' e' ((good_iff _ _).2 ⟨hg', hin⟩) hc'
+
 /-! ### runs whose steps meet the hypotheses at the state in which they are taken -/
 
 /-- a run of re-targetings, each of which finds, *in the document it is applied to*, a `$ref` whose chain leads to the
